@@ -196,12 +196,17 @@ def run_property(mod, tier, seed, replay=None):
 
     # 2. proof obligations
     gen = getattr(mod, "generate_facts", None)
+    gen_err = []
+
+    def pre():
+        if gen:
+            try:
+                gen()
+            except Exception as e:  # extraction failure = obligation not discharged
+                gen_err.append(repr(e))
+    ok, out = build.lake_build(list(getattr(mod, "LEAN_MODULES", [])) + ["econf_model"], pre=pre)
     if gen:
-        try:
-            gen()
-        except Exception as e:  # extraction failure = obligation not discharged
-            res.obligations.append(("facts-extraction", False, repr(e)))
-    ok, out = build.lake_build(list(getattr(mod, "LEAN_MODULES", [])) + ["econf_model"])
+        res.obligations.append(("facts re-extracted from /repo (gen/extract_facts.py -> Generated/Facts.lean)", not gen_err, "; ".join(gen_err)))
     res.obligations.append(("lake build " + " ".join(getattr(mod, "LEAN_MODULES", [])), ok, "" if ok else out[-1500:]))
     bad = lean_source_audit()
     res.obligations.append(("no sorry/admit/axiom/native_decide in Lean sources", not bad, "; ".join(bad)))
